@@ -407,7 +407,7 @@ pub mod inner {
         /// even if out of bounds.
         #[inline]
         fn to_index(&self, x: u32, y: u32) -> usize {
-            (y * self.stride + x) as usize
+            y as usize * self.stride as usize + x as usize
         }
 
         /// Returns the linear index corresponding to the coordinates,
@@ -494,9 +494,10 @@ pub mod inner {
                 "height ({h}) > data length ({len})"
             );
             if h > 0 {
-                let size = (h - 1) * stride + w;
+                // In usize: a u32 product wraps in release builds
+                let size = (h as usize - 1) * stride as usize + w as usize;
                 assert!(
-                    size as usize <= len,
+                    size <= len,
                     "required size ({size}) > data length ({len})"
                 );
             }
